@@ -43,7 +43,7 @@ def anchors(ctx):
            and any(f['ty'] == 'usize' for f in a['variants'][0]['fields'])
            and len(a['variants'][0]['fields']) == 2]
     if len(acc) != 1:
-        ctx.fail_closed(['C01', 'C03', 'C20'], 'R-ANCHOR', 'RP', 'expected one accumulator struct {Vec<Region>, usize}, found %s' % [a['path'] for a in acc])
+        ctx.fail_closed(['C01', 'C03', 'C20', 'C02'], 'R-ANCHOR', 'RP', 'expected one accumulator struct {Vec<Region>, usize}, found %s' % [a['path'] for a in acc])
         return None
     A['ACC'] = acc[0]
     fl = acc[0]['variants'][0]['fields']
@@ -52,7 +52,7 @@ def anchors(ctx):
     rp = [f for f in P.fns.values() if f.kind != 'Closure' and f.raw.get('inputs') and f.raw['inputs'][0] == '&mut ' + acc[0]['path']
           and any(REGION == t for t in f.raw['inputs'])]
     if len(rp) != 1:
-        ctx.fail_closed(['C01', 'C03', 'C20'], 'R-ANCHOR', 'RP', 'expected one method (&mut accumulator, .., Region), found %s' % [f.id for f in rp])
+        ctx.fail_closed(['C01', 'C03', 'C20', 'C02'], 'R-ANCHOR', 'RP', 'expected one method (&mut accumulator, .., Region), found %s' % [f.id for f in rp])
         return None
     A['RP'] = rp[0]
     return A
@@ -914,6 +914,33 @@ def tdb_rules(ctx, A):
             prop = any(g.kind == 'reject' and g.pred[0] == 'fails' and find_calls(g.pred, 'function::build') and g.block in L[1] for g in guards_of(g_))
             okf = every and elem and prop and not any(re.search(r'Iterator::(rev|skip|take|filter|step_by|skip_while|take_while|filter_map|map_while|scan|fuse|cycle)$', x[3]) for x in calls_in(src_e))
             detf = 'iterator %s, build on every trip %s, of the element %s, error propagated %s' % (sty, every, elem, prop)
+    # ... and only once the type's own regions are resolved: function::build turns an unknown name into a hard error, and names such
+    # as `<Base>Vftable` come into being while other types are being resolved — a hard error raised on a visit that would otherwise
+    # be deferred makes the outcome depend on the order in which the resolver happens to visit the types
+    rrsw = [s_ for s_ in tdb.switches() if s_['cond'][0] == 'discr' and find_calls(s_['cond'], 'resolve_regions') and
+            not (strip(s_['cond'][1])[0] == 'call' and strip(s_['cond'][1])[3] == TRY_BRANCH)]
+    some_edges = [tgt for s_ in rrsw for lab, tgt in s_['edges'] if lab == 'Some']
+    sites = []
+    for g_ in [tdb] + P.closures_of(tdb) + [h_ for h_ in method_family(P, tdb) if h_ is not tdb]:
+        for c_ in g_.calls(lambda r: r['path'] and r['path'].endswith('function::build')):
+            isv = strip(g_.expr_of_operand(c_['term']['args'][2])) if len(c_['term']['args']) > 2 else None
+            if isv != ('int', 0, 'bool'):
+                continue            # virtual functions are converted with the vftable block
+            # the block of the type builder from which this call is reached
+            if g_ is tdb:
+                sites.append(c_['block'])
+            else:
+                root = re.sub(r'(::\{closure#\d+\})+$', '', g_.id)
+                for t_ in tdb.calls(lambda r: r['path'] == root or r['path'] == g_.id):
+                    sites.append(t_['block'])
+                if g_.kind == 'Closure' and g_.parent == tdb.id:
+                    for bi_ in tdb.normal_blocks():
+                        for st_ in tdb.blocks[bi_]['stmts']:
+                            if st_['k'] == 'Assign' and st_['rv']['k'] == 'Aggregate' and st_['rv'].get('closure_id') == g_.id:
+                                sites.append(bi_)
+    okafter = bool(sites) and bool(some_edges) and all(any(tdb.dominates(t_, b_) for t_ in some_edges) for b_ in sites)
+    ctx.ob(['C09', 'C10'], 'R-DOM', 'TDB|impl-functions-after-regions', okafter,
+           'impl functions are built (and their unknown names turned into errors) only on visits on which the type\'s regions resolved: %d call site(s), all dominated by the Some edge of resolve_regions: %s' % (len(sites), okafter), where)
     ctx.ob(['C05', 'C10', 'C14'], 'R-ITER', 'TDB|all-impl-functions-built', okf,
            'every function of the type\'s impl block goes through function::build (unfiltered loop, every trip, error propagated): %s' % detf, where)
     # bail census (C03-D2)
